@@ -172,6 +172,15 @@ def check_bits(ctx, case):
                 if not same:
                     ctx.fail("answer-changes-after-result-was-edited", "number_to_bit(%s..., %d) called again after the caller edited the first result in place returns %r" % (
                         a.value[:30], L, second if not isinstance(second, list) else second[:24]))
+    if L <= 300 and ctx.rng.random() < 0.3:
+        import contextlib
+        import io
+        for is_string in (True, False):
+            with contextlib.redirect_stdout(io.StringIO()):
+                v = monitored(dsw.bit_to_number, 2 * B, list(bits), is_string=is_string, verbose=True)
+            if not _bad(ctx, v, "bit_to_number(%d bits, is_string=%s, verbose=True)" % (L, is_string)) and int(v.value) != want:
+                ctx.fail("progress-output-changes-value", "bit_to_number(..., is_string=%s, verbose=True) = %s, exact %s (L=%d)" % (is_string, str(v.value)[:40], want, L))
+        ctx.cls("bits|with progress output")
     if case["container"] == "list":
         b = monitored(dsw.bit_to_number, B, list(bits), is_string=False)
         if not _bad(ctx, b, "bit_to_number(%d bits, is_string=False)" % L):
@@ -290,7 +299,7 @@ def floors(agg, tier):
     if agg["monitors"].get("contract-evaluations-inside-repo-tests", 0) < (10 if tier == "quick" else 10):
         out.append("repository tests ran %d contract evaluations" % agg["monitors"].get("contract-evaluations-inside-repo-tests", 0))
     c, m = agg["classes"], agg["monitors"]
-    for name, need in (("conversion repeated after its result was scrambled", 200), ("bits|limbs", 500), ("dna|limbs", 500),
+    for name, need in (("bits|with progress output", 300), ("conversion repeated after its result was scrambled", 200), ("bits|limbs", 500), ("dna|limbs", 500),
                        ("bits|beyond-640-digits", 3), ("dna|beyond-640-digits", 3)):
         if c.get(name, 0) < need:
             out.append("%s observed %d < %d" % (name, c.get(name, 0), need))
